@@ -132,7 +132,8 @@ protected:
      * case the method should be overridden by a sub class.
      */
     virtual bool allowProcessReferences() { return false; }
-    std::map<std::string, frame_t> dynamicFrames;
+    /** Frames of the dynamic templates the open quantifiers range over, per binder name, innermost last. */
+    std::map<std::string, std::vector<frame_t>> dynamicFrames;
 
 public:
     explicit ExpressionBuilder(Document& doc);
